@@ -2,6 +2,7 @@ package linter
 
 import (
 	"fmt"
+	"slices"
 	"strings"
 	"sync"
 
@@ -22,7 +23,10 @@ type Linter struct {
 	lexers     map[string]*lexer.Lexer
 	ignore     *ignore
 	conf       *config.LinterConfig
-	mu         sync.Mutex // guards Errors: custom linter plugins report from goroutines
+
+	// modules which are being included now, to detect a module which includes itself
+	including []string
+	mu        sync.Mutex // guards Errors: custom linter plugins report from goroutines
 }
 
 func New(c *config.LinterConfig, opts ...optionFunc) *Linter {
@@ -308,6 +312,13 @@ func (l *Linter) lintVCL(vcl *ast.VCL, ctx *context.Context) types.Type {
 		return l.lintSnippetVCL(vcl, ctx)
 	}
 
+	// The main VCL must not be included by the modules either
+	if len(vcl.Statements) > 0 && len(l.including) == 0 {
+		if file := vcl.Statements[0].GetMeta().Token.File; file != "" {
+			l.including = append(l.including, file)
+		}
+	}
+
 	// Resolve module, snippet inclusion
 	statements := l.resolveIncludeStatements(vcl.Statements, ctx, true)
 
@@ -464,6 +475,21 @@ func (l *Linter) resolveFileInclusion(
 		l.Error(e.Match(INCLUDE_STATEMENT_MODULE_LOAD_FAILED))
 		return statements
 	}
+
+	// A module must not include itself, directly or through other modules - resolving would never end
+	if slices.Contains(l.including, module.Name) {
+		e := &LintError{
+			Severity: ERROR,
+			Token:    include.GetMeta().Token,
+			Message:  fmt.Sprintf("Module %s is included recursively", include.Module.Value),
+		}
+		l.Error(e.Match(INCLUDE_STATEMENT_MODULE_LOAD_FAILED))
+		return statements
+	}
+	l.including = append(l.including, module.Name)
+	defer func() {
+		l.including = l.including[:len(l.including)-1]
+	}()
 
 	if isRoot {
 		statements = l.loadVCL(module.Name, module.Data)
